@@ -592,19 +592,31 @@ fn psbt_strat() -> BoxedStrategy<Psbt> {
         // size padding (one large unknown global entry): PSBTs around and beyond 64 KiB, still
         // well inside the 128 KiB message limit
         prop_oneof![30 => Just(0usize), 1 => 65_300usize..65_700, 1 => 70_000usize..100_000],
+        // inputs (by position) that spend another output of the same previous transaction as the
+        // nearest earlier input that carries its previous transaction
+        prop_oneof![2 => Just(0u8), 1 => any::<u8>()],
     )
-        .prop_map(|(ver, lt, ins, outs, gunknown, pad)| {
+        .prop_map(|(ver, lt, ins, outs, gunknown, pad, share_mask)| {
             let mut txins = vec![];
             let mut inputs = vec![];
-            for s in ins.iter() {
+            let mut last_prev: Option<(Transaction, u32)> = None;
+            for (pos, s) in ins.iter().enumerate() {
                 let mut inp = Input::default();
                 let prevout = if s.mode >= 2 {
-                    let vout = pick_idx(s.vout_sel, s.prev.output.len()) as u32;
+                    let (prev, vout) = match &last_prev {
+                        Some((lp, lv)) if share_mask >> pos & 1 == 1 && lp.output.len() >= 2 => {
+                            // another output of the same parent
+                            let n = lp.output.len() as u32;
+                            (lp.clone(), (lv + 1 + pick_idx(s.vout_sel, (n - 1) as usize) as u32) % n)
+                        }
+                        _ => (s.prev.clone(), pick_idx(s.vout_sel, s.prev.output.len()) as u32),
+                    };
                     if s.mode == 3 {
-                        inp.witness_utxo = Some(s.prev.output[vout as usize].clone());
+                        inp.witness_utxo = Some(prev.output[vout as usize].clone());
                     }
-                    inp.non_witness_utxo = Some(s.prev.clone());
-                    OutPoint { txid: s.prev.compute_txid(), vout }
+                    inp.non_witness_utxo = Some(prev.clone());
+                    last_prev = Some((prev.clone(), vout));
+                    OutPoint { txid: prev.compute_txid(), vout }
                 } else {
                     if s.mode == 1 {
                         inp.witness_utxo = Some(s.wutxo.clone());
@@ -954,6 +966,21 @@ impl vls_protocol::serde_bolt::io::Write for ShortWriter {
     }
 }
 
+/// A transport that delivers at most `chunk` bytes per read call and then ends.
+struct ShortReader<'a> {
+    buf: &'a [u8],
+    chunk: usize,
+}
+
+impl<'a> vls_protocol::serde_bolt::io::Read for ShortReader<'a> {
+    fn read(&mut self, out: &mut [u8]) -> vls_protocol::serde_bolt::io::Result<usize> {
+        let n = out.len().min(self.chunk).min(self.buf.len());
+        out[..n].copy_from_slice(&self.buf[..n]);
+        self.buf = &self.buf[n..];
+        Ok(n)
+    }
+}
+
 pub struct C19;
 
 impl C19 {
@@ -1052,6 +1079,42 @@ impl C19 {
                 ));
             }
             st.class(if chunk == usize::MAX { "framed:whole" } else { "framed:short-writes" });
+        }
+
+        // the raw framed reader (msgs::read_raw: what a proxy uses to take a reply off the link before
+        // it forwards it): over a transport that delivers few bytes per read call it returns exactly
+        // the frame; a link that ends inside the frame is an error, never a (padded) frame
+        {
+            let mut frame = (bytes.len() as u32).to_be_bytes().to_vec();
+            frame.extend_from_slice(bytes);
+            for chunk in [usize::MAX, 7, 1] {
+                let mut r = ShortReader { buf: &frame[..], chunk };
+                match guard(|| vls_protocol::msgs::read_raw(&mut r)) {
+                    Ok(Ok(v)) if v == bytes => {}
+                    Ok(Ok(v)) => {
+                        return ctx.report(st, Violation::new(
+                            format!("C19:{}:raw-read-differs", name),
+                            format!("msgs::read_raw over a transport delivering {} bytes per read returns other bytes than were framed: {}", chunk, first_diff(&v, bytes)),
+                        ))
+                    }
+                    Ok(Err(err)) => {
+                        return ctx.report(st, Violation::new(format!("C19:{}:raw-read-failed", name), format!("msgs::read_raw of a complete frame ({} bytes per read) = Err({:?})", chunk, err)))
+                    }
+                    Err(p) => return ctx.report(st, Violation::new(format!("C19:{}:raw-read-panic", name), format!("msgs::read_raw panicked: {}", p))),
+                }
+            }
+            if !bytes.is_empty() {
+                for cut in [4usize, 4 + bytes.len() / 2, 4 + bytes.len() - 1] {
+                    let mut r = ShortReader { buf: &frame[..cut], chunk: 5 };
+                    if let Ok(Ok(v)) = guard(|| vls_protocol::msgs::read_raw(&mut r)) {
+                        return ctx.report(st, Violation::new(
+                            format!("C19:{}:raw-read-of-truncated-frame", name),
+                            format!("the link ended after {} of {} frame bytes and msgs::read_raw returned a frame of {} bytes ({} of them equal to what was sent)", cut, frame.len(), v.len(), v.iter().zip(bytes.iter()).take_while(|(a, b)| a == b).count()),
+                        ));
+                    }
+                }
+                st.class("framed:raw-read:truncated-refused");
+            }
         }
 
         // the typed entry point used by the node side for replies
